@@ -470,7 +470,7 @@ ZSIM_REGISTER_WORLD(C02)
 // using the protection tag of the hit byte.
 struct Obs {
   std::vector<std::pair<int, int>> events;
-  std::map<int, uint64_t> page_hash;                       // key pgno<<8|subno -> hash of level 1 + 2.5 rendering
+  std::map<int, uint64_t> page_hash;                       // key pgno<<16|subno (the FULL subpage number) -> hash of level 1 + 2.5 rendering
   std::map<int, std::vector<uint16_t>> row0;               // level-1 unicode of row 0
   std::map<int, std::vector<uint64_t>> row_hash;           // per row hash (both levels)
   bool operator==(const Obs& o) const { return events == o.events && page_hash == o.page_hash; }
@@ -498,25 +498,63 @@ struct C03 : World, TtxWorldBase {
       Op o; o.task = (int)r.below((uint64_t)nmag); o.kind = "page";
       int pg = car[o.task][r.below(1 + r.below(3))];
       // flags: bit0 X/27/0, bit1 lc, bit2 row 24, bit3 random order, bit4 X/26 enhancement, bit5 X/28/0, bit6 followed by an 8/30 packet
-      int flags = (int)r.below(128);
-      if (enumerate) flags &= ~0; 
-      o.a = {pg, 1 + (int64_t)r.below(3), (int64_t)r.below(8), r.chance(1, 3) ? 1 : 0, (int64_t)r.below(1u << 30), flags, (int64_t)r.below(6), enumerate ? 1 + (int64_t)r.below(5) : (int64_t)r.below(24)};
+      // bit7 X/26 with the full mix of column triplet modes (character replacing and not) addressing transmitted rows
+      int flags = (int)r.below(256);
+      // a[8]: 0 = subcodes as in C02 (0000 or 01-79); else page numbers ending in 3, 7, 9 are clock pages with the
+      // four digit subcode hh:mm (S3/S4 non-zero), hours 01-22
+      int64_t clock = r.chance(1, 4) ? 0 : 1 + (int64_t)r.below(22 * 60);
+      o.a = {pg, 1 + (int64_t)r.below(3), (int64_t)r.below(8), r.chance(1, 3) ? 1 : 0, (int64_t)r.below(1u << 30), flags, (int64_t)r.below(6), enumerate ? 1 + (int64_t)r.below(5) : (int64_t)r.below(24), clock};
       p.ops.push_back(o);
     }
     if (!enumerate) {
       int nf = 1 + (int)r.below(3);
       for (int i = 0; i < nf; i++) {
         Op f; f.task = 8; f.kind = "fault";
-        // kind: 0 single bit, 1 two bits in one byte, 2 two bits in different bytes, 3 burst, 4 drop packet
-        f.a = {(int64_t)r.below(5), (int64_t)r.below(1000), (int64_t)r.below(336), (int64_t)r.below(336), 2 + (int64_t)r.below(15)};
+        // kind: 0 single bit, 1 two bits in one byte, 2 two bits in different bytes, 3 burst, 4 drop packet,
+        //       5 two bits in one of the page number / subcode / control bytes of a header,
+        //       6 one bit in a text row character at a position addressed by an X/26 column triplet
+        f.a = {(int64_t)r.below(7), (int64_t)r.below(1000), (int64_t)r.below(336), (int64_t)r.below(336), 2 + (int64_t)r.below(15)};
         p.ops.push_back(f);
       }
     }
     return p;
   }
 
-  struct Rec { ttx::Packet pk; int mag; int page_seq; bool page_has_x26; };
-  std::set<int> transmitted;  // pgno<<8|subno
+  struct Rec { ttx::Packet pk; int mag; int page_seq; bool page_has_x26; int pgno; };
+  std::set<int> transmitted;  // pgno<<16|subno, the full subpage number S1..S4 as transmitted
+  // per page number: positions (row*40+column) of Level 1 characters which X/26 enhancement data of any transmission
+  // of that page overrides ("positions overridden by X/26 enhancement data excepted")
+  std::map<int, std::set<int>> x26_override;
+  // (packet index, byte index) of text row characters addressed by an X/26 column triplet of whatever mode, same transmission
+  std::vector<std::pair<int, int>> x26_addressed;
+  static int pkey(int pgno, int subno) { return (pgno << 16) | (subno & 0xFFFF); }
+
+  // Follows the active position through the triplets of one X/26 packet as EN 300 706 12.3 describes it: row address
+  // triplets (address 40-63) of mode 0x04 (set active position) and 0x01 (full row colour) select the row (address 40 =
+  // row 24), mode 0x07 selects row 0; column triplets (address 0-39) act on that row.  A row address lower than the
+  // current row is read both ways (moves the position / is ignored: the standard wants ascending order), both rows count.
+  // replacing = modes which put another character at the position: 0x01 0x02 0x0B mosaics, 0x09 G0, 0x0D DRCS,
+  // 0x0F G2, 0x10-0x1F composed characters; 0x08 (character set designation) is counted too: the glyph shown at
+  // that position no longer is the one the Level 1 code alone selects.
+  static void x26_positions(const ttx::Triplet t[13], std::set<int>* replacing, std::set<int>* addressed) {
+    int row_a = 0, row_b = 0;  // a: every row address taken, b: ascending only
+    for (int k = 0; k < 13; k++) {
+      int ad = t[k].address & 0x3F, mode = t[k].mode & 0x1F;
+      if (ad >= 40) {
+        if (mode == 0x1F) break;  // termination marker
+        int row = -1;
+        if (mode == 0x04 || mode == 0x01) row = ad == 40 ? 24 : ad - 40;
+        else if (mode == 0x07) row = 0;
+        if (row >= 0) { row_a = row; if (row >= row_b || row == 0) row_b = row; }
+        continue;
+      }
+      bool repl = mode == 0x01 || mode == 0x02 || mode == 0x08 || mode == 0x09 || mode == 0x0B || mode == 0x0D || mode == 0x0F || mode >= 0x10;
+      for (int row : {row_a, row_b}) {
+        if (addressed) addressed->insert(row * 40 + ad);
+        if (repl && replacing) replacing->insert(row * 40 + ad);
+      }
+    }
+  }
 
   // ---- phase 1: record the transmission
   void record(const Plan& plan, RunCtx& c, std::vector<Rec>& out) {
@@ -534,8 +572,8 @@ struct C03 : World, TtxWorldBase {
         auto hdr = [&](int page, int sub, int nat, bool erase, int seq, bool x26) {
           int pgno = mag * 256 + page; uint8_t text[32]; header_text(pgno, text);
           unsigned ctrl = ttx::ctrl_national(nat) | (erase ? ttx::C4_ERASE : 0) | (serial ? ttx::C11_SERIAL : 0);
-          out.push_back({ttx::header(mag, page, sub, ctrl, text), m, seq, x26});
-          transmitted.insert((pgno << 8) | (sub & 0xFF));
+          out.push_back({ttx::header(mag, page, sub, ctrl, text), m, seq, x26, pgno});
+          transmitted.insert(pkey(pgno, sub));
         };
         for (const Op* op : per[(size_t)m]) {
           int page = to_bcd((int)(llabs(op->arg(0)) % 99));
@@ -543,6 +581,14 @@ struct C03 : World, TtxWorldBase {
           prev_page = page;
           int sub = to_bcd((int)(llabs(op->arg(1)) % 80));
           if (page & 1) sub = 0; else if (sub == 0) sub = 1;
+          // clock pages: subcode hh:mm in S4 S3 : S2 S1 (EN 300 706 A.1), valid BCD digits, hours 01-22 (the cache
+          // files 23:01-23:59 under subpage 0, a documented oddity the statement does not cover)
+          int64_t clk = llabs(op->arg(8));
+          if (clk != 0 && ((page & 15) == 3 || (page & 15) == 7 || (page & 15) == 9)) {
+            int hh = 1 + (int)((clk - 1) % 22), mm = (int)(((clk - 1) / 22) % 60);
+            sub = (to_bcd(hh) << 8) | to_bcd(mm);
+          }
+          int pgno = mag * 256 + page;
           int nat = (int)(llabs(op->arg(2)) % 8); bool erase = op->arg(3) & 1;
           Rng r((uint64_t)op->arg(4), "content"); int flags = (int)op->arg(5);
           int seq = page_seq++; bool x26 = flags & 16;
@@ -555,32 +601,66 @@ struct C03 : World, TtxWorldBase {
           if (flags & 4) ys.push_back(24);
           if (flags & 8) for (size_t i = ys.size(); i > 1; i--) std::swap(ys[i - 1], ys[r.below(i)]);
           int style = (int)(llabs(op->arg(6)) % 6);
-          for (int y : ys) { uint8_t ch[40]; gen_row(r, style, ch); out.push_back({ttx::row(mag, y, ch), m, seq, x26}); sched.yield(); }
+          std::map<int, int> row_packet;  // row -> index of its packet in this transmission
+          for (int y : ys) { uint8_t ch[40]; gen_row(r, style, ch); row_packet[y] = (int)out.size(); out.push_back({ttx::row(mag, y, ch), m, seq, x26, pgno}); sched.yield(); }
           if (x26) {
             ttx::Triplet t[13];
-            int row = 1 + (int)r.below(23);
-            t[0] = {40 + row, 0x04, 0};  // set active position
+            bool full = flags & 128;
+            // full mix: the active position is put on rows which are transmitted, so that a parity error can hit an addressed character
+            auto pick_row = [&]() { return full && !ys.empty() && r.chance(7, 8) ? ys[r.below(ys.size())] : 1 + (int)r.below(23); };
+            auto row_addr = [](int row) { return row == 24 ? 40 : 40 + row; };
+            int row = pick_row();
+            t[0] = {row_addr(row), 0x04, 0};  // set active position
             for (int k = 1; k < 13; k++) {
-              switch (r.below(4)) {
-                case 0: t[k] = {(int)r.below(40), 0x0F, 0x20 + (int)r.below(0x60)}; break;       // G2 character
-                case 1: t[k] = {(int)r.below(40), 0x10 + (int)r.below(16), 0x41 + (int)r.below(26)}; break;  // diacritical
-                case 2: t[k] = {(int)r.below(40), 0x00, (int)r.below(32)}; break;               // foreground colour
-                default: t[k] = {40 + 1 + (int)r.below(23), 0x04, (int)r.below(40)}; break;       // set active position
+              if (!full) {
+                switch (r.below(4)) {
+                  case 0: t[k] = {(int)r.below(40), 0x0F, 0x20 + (int)r.below(0x60)}; break;       // G2 character
+                  case 1: t[k] = {(int)r.below(40), 0x10 + (int)r.below(16), 0x41 + (int)r.below(26)}; break;  // diacritical
+                  case 2: t[k] = {(int)r.below(40), 0x00, (int)r.below(32)}; break;               // foreground colour
+                  default: t[k] = {40 + 1 + (int)r.below(23), 0x04, (int)r.below(40)}; break;       // set active position
+                }
+                continue;
+              }
+              switch (r.below(8)) {
+                case 0: case 1: case 2: case 3: {
+                  // column triplets which address a position but leave the Level 1 character in place: foreground colour,
+                  // background colour, additional flash functions, reserved/PDC 0x0A, display attributes, font style
+                  static const int nonchar[] = {0x00, 0x03, 0x07, 0x0A, 0x0C, 0x0E, 0x0C, 0x0E};
+                  int mode = nonchar[r.below(sizeof nonchar / sizeof nonchar[0])];
+                  int data = mode == 0x00 || mode == 0x03 || mode == 0x07 ? (int)r.below(32) : (int)r.below(128);
+                  t[k] = {(int)r.below(40), mode, data}; break;
+                }
+                case 4: {
+                  // character replacing column triplets
+                  static const int chr[] = {0x01, 0x02, 0x09, 0x0B, 0x0F, 0x0F, 0x08, 0x10, 0x11, 0x12, 0x14, 0x18, 0x1F};
+                  int mode = chr[r.below(sizeof chr / sizeof chr[0])];
+                  int data = mode == 0x08 ? (int)r.below(128) : mode >= 0x10 ? 0x41 + (int)r.below(26) : 0x20 + (int)r.below(0x60);
+                  t[k] = {(int)r.below(40), mode, data}; break;
+                }
+                case 5: row = pick_row(); t[k] = {row_addr(row), 0x04, (int)r.below(40)}; break;   // set active position
+                case 6: row = pick_row(); t[k] = {row_addr(row), 0x01, (int)r.below(128)}; break;  // full row colour (moves the active position too)
+                default:
+                  if (r.chance(1, 4)) t[k] = {63, 0x07, (int)r.below(32)};                         // address display row 0
+                  else t[k] = {40, 0x00, (int)r.below(32)};                                       // full screen colour (no position change)
+                  break;
               }
             }
             t[12] = {0x3F, 0x1F, 0x7F};  // termination marker
-            out.push_back({ttx::x26(mag, 0, t), m, seq, x26}); sched.yield();
+            x26_positions(t, &x26_override[pgno], nullptr);
+            std::set<int> addressed; x26_positions(t, nullptr, &addressed);
+            for (int pos : addressed) { auto it = row_packet.find(pos / 40); if (it != row_packet.end()) x26_addressed.push_back({it->second, 2 + pos % 40}); }
+            out.push_back({ttx::x26(mag, 0, t), m, seq, x26, pgno}); sched.yield();
           }
           if (flags & 1) {
             ttx::Link L[6];
             for (int k = 0; k < 6; k++) { L[k].pgno = (1 + (int)r.below(8)) * 256 + to_bcd((int)r.below(100)); L[k].subno = r.chance(1, 2) ? 0x3F7F : to_bcd((int)r.below(80)); }
-            out.push_back({ttx::x27_0(mag, L, ((flags & 2) ? 8 : 0) | (int)r.below(8)), m, seq, x26}); sched.yield();
+            out.push_back({ttx::x27_0(mag, L, ((flags & 2) ? 8 : 0) | (int)r.below(8)), m, seq, x26, pgno}); sched.yield();
           }
           if (flags & 32) {
             uint32_t tr[13];
             tr[0] = 0;  // page function LOP, coding 0
             for (int k = 1; k < 13; k++) tr[k] = (uint32_t)r.below(1u << 18);
-            out.push_back({ttx::x28(mag, 0, tr), m, seq, x26}); sched.yield();
+            out.push_back({ttx::x28(mag, 0, tr), m, seq, x26, pgno}); sched.yield();
           }
           page_end();
           if (flags & 64) {
@@ -589,7 +669,7 @@ struct C03 : World, TtxWorldBase {
             p.b[2] = tx::ham84(2); p.tag[2] = ttx::H84;
             for (int k = 3; k < 22; k++) { p.b[k] = tx::ham84((unsigned)r.below(16)); p.tag[k] = ttx::H84; }
             for (int k = 22; k < 42; k++) { p.b[k] = tx::odd_parity((uint8_t)(0x20 + r.below(0x5F))); p.tag[k] = ttx::PAR; }
-            out.push_back({p, 0, -1, false});
+            out.push_back({p, 0, -1, false, 0});
           }
           sched.yield();
         }
@@ -621,7 +701,16 @@ struct C03 : World, TtxWorldBase {
       int any; { SutScope ss; any = vbi_is_cached(dec, pgno, VBI_ANY_SUBNO); }
       if (!any) continue;
       int hi; { SutScope ss; hi = vbi_cache_hi_subno(dec, pgno); }
-      for (int s = 0; s <= hi && s <= 0x3F7F; s++) {
+      // candidate subpage numbers (the full 14 bit number): 0-79 up to the highest the cache reports, that highest
+      // number itself, every number a page event of this page carried, every number transmitted for this page, and
+      // the version a wildcard lookup finds
+      std::set<int> cand;
+      for (int s = 0; s <= hi && s <= 0x79; s++) cand.insert(s);
+      if (hi >= 0 && hi <= 0x3F7F) cand.insert(hi);
+      for (auto& e : events) if (e.first == pgno) cand.insert(e.second & 0x3F7F);
+      for (auto it = transmitted.lower_bound(pkey(pgno, 0)); it != transmitted.end() && (*it >> 16) == pgno; ++it) cand.insert(*it & 0xFFFF);
+      { vbi_page pw; vbi_bool ok; { SutScope ss; ok = vbi_fetch_vt_page(dec, &pw, pgno, VBI_ANY_SUBNO, VBI_WST_LEVEL_1, 25, FALSE); } if (ok) cand.insert(pw.subno & 0x3F7F); }
+      for (int s : cand) {
         int cached; { SutScope ss; cached = vbi_is_cached(dec, pgno, s); }
         if (!cached) continue;
         vbi_page pg; Fnv h; std::vector<uint64_t> rows;
@@ -640,13 +729,13 @@ struct C03 : World, TtxWorldBase {
               uint64_t v = (uint64_t)a.unicode | ((uint64_t)a.foreground << 16) | ((uint64_t)a.background << 24) | ((uint64_t)a.size << 32) | ((uint64_t)a.opacity << 40) |
                            ((uint64_t)a.flash << 48) | ((uint64_t)a.conceal << 49) | ((uint64_t)a.underline << 50) | ((uint64_t)a.bold << 51) | ((uint64_t)a.italic << 52);
               rh.u64(v);
-              if (lvl == 0 && row == 0) o.row0[(pgno << 8) | (s & 0xFF)].push_back(a.unicode);
+              if (lvl == 0 && row == 0) o.row0[pkey(pgno, s)].push_back(a.unicode);
             }
             h.u64(rh.h); rows.push_back(rh.h);
           }
         }
-        o.page_hash[(pgno << 8) | (s & 0xFF)] = h.h;
-        o.row_hash[(pgno << 8) | (s & 0xFF)] = rows;
+        o.page_hash[pkey(pgno, s)] = h.h;
+        o.row_hash[pkey(pgno, s)] = rows;
       }
     }
     { SutScope ss; vbi_decoder_delete(dec); dec = nullptr; }
@@ -656,14 +745,15 @@ struct C03 : World, TtxWorldBase {
   std::string diff(const Obs& a, const Obs& b) {
     char t[256];
     if (a.events != b.events) { snprintf(t, sizeof t, "page events differ (%zu vs %zu)", a.events.size(), b.events.size()); return t; }
-    for (auto& kv : a.page_hash) { auto it = b.page_hash.find(kv.first); if (it == b.page_hash.end()) { snprintf(t, sizeof t, "page %x.%x cached only with the fault", kv.first >> 8, kv.first & 255); return t; } if (it->second != kv.second) { snprintf(t, sizeof t, "page %x.%x renders differently", kv.first >> 8, kv.first & 255); return t; } }
-    for (auto& kv : b.page_hash) if (!a.page_hash.count(kv.first)) { snprintf(t, sizeof t, "page %x.%x missing with the fault", kv.first >> 8, kv.first & 255); return t; }
+    for (auto& kv : a.page_hash) { auto it = b.page_hash.find(kv.first); if (it == b.page_hash.end()) { snprintf(t, sizeof t, "page %x.%x cached only with the fault", kv.first >> 16, kv.first & 0xFFFF); return t; } if (it->second != kv.second) { snprintf(t, sizeof t, "page %x.%x renders differently", kv.first >> 16, kv.first & 0xFFFF); return t; } }
+    for (auto& kv : b.page_hash) if (!a.page_hash.count(kv.first)) { snprintf(t, sizeof t, "page %x.%x missing with the fault", kv.first >> 16, kv.first & 0xFFFF); return t; }
     return "";
   }
 
   bool only_transmitted(const Obs& o, RunCtx& c, const char* what) {
-    for (auto& kv : o.page_hash) if (!transmitted.count(kv.first)) { c.fail("oracle:c03-wrong-number", "%s: page %x.%x is cached but was never transmitted", what, kv.first >> 8, kv.first & 255); return false; }
-    for (auto& e : o.events) if (!transmitted.count((e.first << 8) | (e.second & 0xFF))) { c.fail("oracle:c03-wrong-number", "%s: page event %x.%x for a page never transmitted", what, e.first, e.second); return false; }
+    // "no page is ever stored under a page or subpage number other than one that was transmitted": the full subpage number counts
+    for (auto& kv : o.page_hash) if (!transmitted.count(kv.first)) { c.fail("oracle:c03-wrong-number", "%s: page %x.%04x is cached but was never transmitted", what, kv.first >> 16, kv.first & 0xFFFF); return false; }
+    for (auto& e : o.events) if (!transmitted.count(pkey(e.first, e.second))) { c.fail("oracle:c03-wrong-number", "%s: page event %x.%04x for a page never transmitted", what, e.first, e.second); return false; }
     return true;
   }
 
@@ -718,7 +808,20 @@ struct C03 : World, TtxWorldBase {
     }
     if (par_hit && !any_double_addr) {
       if (pk.y >= 1 && pk.y <= 25) {
-        if (L[(size_t)k].page_has_x26) { c.count("fault_parity_row_x26_page"); return true; }
+        // "positions overridden by X/26 enhancement data excepted": when every damaged character sits at a position where
+        // X/26 data of this page puts another character, the rule does not apply; an error anywhere else (also at a
+        // position which X/26 triplets merely address: colours, flash, display attributes, font style) is under the rule
+        {
+          bool all_overridden = true;
+          auto ov = x26_override.find(L[(size_t)k].pgno);
+          for (auto& kv : per_byte) {
+            if (pk.tag[kv.first] != ttx::PAR || kv.second % 2 == 0) continue;
+            if (ov == x26_override.end() || !ov->second.count(pk.y * 40 + kv.first - 2)) all_overridden = false;
+          }
+          if (all_overridden) { c.count("fault_parity_row_x26_overridden_position"); return true; }
+          if (L[(size_t)k].page_has_x26) c.count("fault_parity_row_on_x26_page");
+          for (auto& a : x26_addressed) if (a.first == k && per_byte.count(a.second)) { c.count("fault_parity_row_at_x26_addressed_position"); break; }
+        }
         c.count("fault_parity_row");
         if (!without.count(k)) without[k] = decode(L, k, {});
         std::string d = diff(o, without[k]);
@@ -731,14 +834,14 @@ struct C03 : World, TtxWorldBase {
         if (o.events != twin.events) { c.fail("oracle:c03-parity-header", "%s: parity error in header text changed the page events", what); return false; }
         for (auto& kv : twin.row_hash) {
           auto it = o.row_hash.find(kv.first);
-          if (it == o.row_hash.end()) { c.fail("oracle:c03-parity-header", "%s: page %x.%x missing", what, kv.first >> 8, kv.first & 255); return false; }
+          if (it == o.row_hash.end()) { c.fail("oracle:c03-parity-header", "%s: page %x.%x missing", what, kv.first >> 16, kv.first & 0xFFFF); return false; }
           for (size_t r = 0; r < kv.second.size(); r++) {
             if ((r % 25) == 0) continue;
-            if (kv.second[r] != it->second[r]) { c.fail("oracle:c03-parity-header", "%s: page %x.%x row %zu changed by a parity error in a header", what, kv.first >> 8, kv.first & 255, r % 25); return false; }
+            if (kv.second[r] != it->second[r]) { c.fail("oracle:c03-parity-header", "%s: page %x.%x row %zu changed by a parity error in a header", what, kv.first >> 16, kv.first & 0xFFFF, r % 25); return false; }
           }
           auto& a = twin.row0.at(kv.first); auto& b = o.row0.at(kv.first);
           for (size_t col = 8; col < a.size() && col < b.size(); col++)
-            if (a[col] != b[col] && b[col] != 0x20) { c.fail("oracle:c03-parity-header", "%s: page %x.%x header column %zu shows U+%04X instead of U+%04X or blank", what, kv.first >> 8, kv.first & 255, col, b[col], a[col]); return false; }
+            if (a[col] != b[col] && b[col] != 0x20) { c.fail("oracle:c03-parity-header", "%s: page %x.%x header column %zu shows U+%04X instead of U+%04X or blank", what, kv.first >> 16, kv.first & 0xFFFF, col, b[col], a[col]); return false; }
         }
         return true;
       }
@@ -753,7 +856,7 @@ struct C03 : World, TtxWorldBase {
     static bool warmed = false;
     if (!warmed) { warmed = true; vbi_decoder* d = vbi_decoder_new(); vbi_decoder_delete(d); }
     alloc_track_reset();
-    ctx = &c; g = this; transmitted.clear(); decodes = 0;
+    ctx = &c; g = this; transmitted.clear(); x26_override.clear(); x26_addressed.clear(); decodes = 0;
     frame_max = (int)(plan.knob("frame_max", 4) % 17); if (frame_max < 1) frame_max = 1;
     std::vector<Rec> L;
     record(plan, c, L);
@@ -773,14 +876,33 @@ struct C03 : World, TtxWorldBase {
             if (L[k].pk.tag[b / 8] == ttx::RAW) { c.count("bits_skipped_unprotected"); continue; }
             check_fault(L, twin, without, (int)k, {b}, false, c);
           }
+        // and every pair of bits in each packet address byte and in each page number / subcode / control byte of every
+        // header (uncorrectable bytes): the packet is ignored resp. nothing is stored under a number never transmitted
+        for (size_t k = 0; k < L.size() && !c.failed; k++)
+          for (int byte = 0; byte < (L[k].pk.y == 0 ? 10 : 2) && !c.failed; byte++)
+            for (int b1 = 0; b1 < 8 && !c.failed; b1++)
+              for (int b2 = b1 + 1; b2 < 8 && !c.failed; b2++) {
+                c.count("enumerated_double_bit_address_control");
+                check_fault(L, twin, without, (int)k, {byte * 8 + b1, byte * 8 + b2}, false, c);
+              }
         c.count("enumerated_transmissions");
       }
       for (const Op* f : faults) {
         if (c.failed) break;
-        int kind = (int)(llabs(f->arg(0)) % 5);
+        int kind = (int)(llabs(f->arg(0)) % 7);
         int k = (int)(llabs(f->arg(1)) % (int64_t)L.size());
         int b1 = (int)(llabs(f->arg(2)) % 336), b2 = (int)(llabs(f->arg(3)) % 336);
         std::vector<int> bits;
+        if (kind == 5) {
+          // directed: an uncorrectable page number / subcode / control byte of a header (bytes 2-9)
+          std::vector<int> hdrs; for (size_t i = 0; i < L.size(); i++) if (L[i].pk.y == 0) hdrs.push_back((int)i);
+          if (hdrs.empty()) kind = 1;
+          else { k = hdrs[(size_t)(llabs(f->arg(1)) % (int64_t)hdrs.size())]; b1 = (2 + b1 / 8 % 8) * 8 + b1 % 8; c.count("fault_double_bit_header_number_control"); kind = 1; }
+        } else if (kind == 6) {
+          // directed: a parity error exactly where an X/26 column triplet points
+          if (x26_addressed.empty()) kind = 0;
+          else { auto& a = x26_addressed[(size_t)(llabs(f->arg(1)) % (int64_t)x26_addressed.size())]; k = a.first; b1 = a.second * 8 + b1 % 8; c.count("fault_one_bit_at_x26_addressed_position"); kind = 0; }
+        }
         switch (kind) {
           case 0: bits = {b1}; break;
           case 1: bits = {b1, (b1 & ~7) | ((b1 + 1 + b2 % 7) & 7)}; break;
